@@ -9,7 +9,7 @@ LOG=$S/confirm.log
 exec >$LOG 2>&1
 git -C /repo worktree remove --force $W 2>/dev/null
 git -C /repo worktree add -q --detach $W HEAD || exit 9
-cd $W && make -j16 >/dev/null 2>&1 || { echo "CLEAN BUILD FAILED"; exit 9; }
+cd $W && ./configure >/dev/null 2>&1; make -j16 >/dev/null 2>&1 || { echo "CLEAN BUILD FAILED"; exit 9; }
 echo "== demo on clean tree"; timeout 300 bash $S/demo/run.sh $W; RC_CLEAN=$?; echo "rc_clean=$RC_CLEAN"
 git -C $W apply $S/patch.diff || { echo "PATCH DOES NOT APPLY"; exit 9; }
 make -j16 >/dev/null 2>$S/build.err || { echo "MUTANT BUILD FAILED"; cat $S/build.err | tail; exit 9; }
